@@ -238,7 +238,9 @@ def run_one(rng, counters):
                     # the alignment begins/ends with exactly the inserted bases: it carries the ALT allele completely
                     counters["pairs_edge_insertion"] = counters.get("pairs_edge_insertion", 0) + 1
                     trailing = any(_edge_insertion(pt, v) == "trailing" for pt in parts)
-                    if r_ is None and use_ref and trailing and i not in crowded and len(parts) == 1:
+                    if r_ is None and use_ref and trailing and i not in crowded and len(parts) == 1 and v.shift == 0:
+                        # (an insertion that can be shifted to the right is excluded: a read ending right behind its inserted bases
+                        # reads the same with and without it - the reference continues with the very same bases)
                         # anchor and all inserted bases are in the alignment (it ends right behind them): with a reference
                         # the allele has to be found
                         viol.append({"mech": "missing-allele:ins:edge", "msg": "fragment %s (alignments %r) ends with the anchor and all inserted bases of %r but no allele was recorded (with reference)" % (
